@@ -300,7 +300,12 @@ class CSVWriter(rbql_engine.RBQLOutputWriter):
         if self.broken_pipe:
             return
         if self.close_stream_on_finish:
-            self.stream.close()
+            try:
+                self.stream.close() # Closing flushes: if the consumer went away after the last successful flush this is where the broken pipe shows up
+            except broken_pipe_exception as exc:
+                if broken_pipe_exception == IOError:
+                    if exc.errno != EPIPE:
+                        raise
         else:
             try:
                 self.stream.flush() # This flush still can throw if all flushes before were sucessfull! And the exceptions would be printed anyway, even if it was explicitly catched just couple of lines after.
